@@ -987,6 +987,14 @@ class CHECK(Check):
                   "the lifted flags (lifesrc.run) and the lifted flags are cross-checked against the runtime probe. "
                   "set_params histories (Model/LifecycleParams.lean): fit after set_params(p=v) = fresh(p=v).fit for every "
                   "history iff fit reads no parameter-derived attribute. prefit=True: the user's estimator is never refitted. "
+                  "PREDICT PURITY ACROSS THE HELPER OBJECTS (lifters/lifecycle_helpers.py): the prediction closure is followed from "
+                  "ThresholdOptimizer.predict/_pmf_predict into InterpolatedThresholder and from _AdversarialFairness.predict/_raw_predict "
+                  "into <engine>.evaluate (base class + both subclasses); writes / in-place stores / mutating calls (also through local "
+                  "aliases), mode calls, forward passes and escapes are generated lists; predictPureSrc is derived from them and guards the "
+                  "predict step of every source-derived machine (src_helper_predict_pure, src_helper_mode_flag_scratch, "
+                  "src_predict_pure_flags, guard_off_breaks_spec); oracle: exact before/after comparison of the helper objects' state "
+                  "(interpolation_dict entries, network parameters, optimiser state, plain attributes) around every prediction, a Dropout "
+                  "network for the mode flag, and the helper methods entered at run time must be in the lifted closure. "
                   "PARTIAL: the machines model latches and attribute presence, "
                   "not Python object identity, pickle or clone internals, nor the learned numbers.")
     design_ref = "DESIGN.md section 4 (C19), section 5 (F5a-F5e), section 6 (partial)"
@@ -1039,13 +1047,30 @@ class CHECK(Check):
                "setattr with a literal name) inside the class's own methods is the only way get_params()[name] changes; the "
                "callees that receive `self` (sklearn validate_data / check_is_fitted / is_classifier, type, user callbacks, the "
                "backend engine constructor) do not rebind constructor parameters; calls into other classes are not followed "
-               "except ExponentiatedGradient -> _Lagrangian",
+               "except ExponentiatedGradient -> _Lagrangian (fit) and, for the PREDICTION closure, ThresholdOptimizer -> "
+               "InterpolatedThresholder (interpolated_thresholder_) and _AdversarialFairness -> BackendEngine / PytorchEngine / "
+               "TensorflowEngine (backendEngine_), lifters/lifecycle_helpers.py",
+               "inside the helper classes: a method call on a helper attribute mutates iff its name is in the lifter's MUTATING list "
+               "or ends in `_` (torch in-place convention); names in its PURE list (items, parameters, numpy, detach, ..) do not; any "
+               "other name is refused.  `_get_soft_predictions(estimator_, ..)` and the forward pass of the user's torch / keras module "
+               "in eval mode do not alter the helper object (the user's base estimator / network is outside fairlearn); "
+               "ThresholdOperation.__call__ is checked to contain no store",
+               "DECISION: the train/eval MODE FLAG of a torch module (written by PytorchEngine.evaluate: predictor_model.eval()) is NOT "
+               "fitted state, provided every forward pass in evaluate and in train_step is preceded by a mode selection (lifted, "
+               "theorem src_helper_mode_flag_scratch); parameters, buffers, optimiser state and every attribute ARE",
+               "`.retSelf` of the EG / TO / CR machine steps and `pickle = identity on the modelled state` stay MODELLED (the lifted "
+               "fitReturns table is proved [\"self\"] for every class, but only the GridSearch rule flag and advStepSrc are computed "
+               "from it)",
                "set_params(p=v) is setattr(self, p, v) (sklearn BaseEstimator); clone re-runs __init__ on get_params()",
                "torch is deterministic for a fixed random_state on one thread")
     assumptions = ("adversarial estimators are constructed with warm_start=False and an integer random_state",
                    "ThresholdOptimizer: prefit=False, and one configuration prefit=True around a learner the harness fitted once (its "
                    "unfitted clone raises AttributeError from predict_proba)", "every data set contains all classes and both groups",
-                   "pickling a set-up adversarial estimator is not claimed by the property (result not judged, state is)")
+                   "pickling a set-up adversarial estimator is not claimed by the property (result not judged, state is)",
+                   "helper objects: only the torch backend is executed (tensorflow is not installed; TensorflowEngine.evaluate is "
+                   "covered by the lifted lists and theorems only); the torch train/eval mode flag is not compared as state (see trusted)",
+                   "F5g (known finding): CorrelationRemover.transform rewrites n_features_in_ / feature_names_in_ through "
+                   "validate_data(reset=True); exactly these two names are tolerated for class CR")
 
     # ---------------------------------------------------------------- generation
     def _cfgs(self, ad, tier):
